@@ -743,6 +743,10 @@ def _gen_enum_pkg(rng, name, profile, max_hb, allow_gorm):
     spec = EnumPkg(name)
     ntypes = rng.choice([1, 1, 2, 2, 3])
     tnames = rng.sample(TYPE_NAMES, ntypes)
+    # the generated identifiers are _<camelCase(T)>_max etc.: two types whose names differ only in case or
+    # underscores would collide (a C01 matter, kept out of this stream)
+    if len({t.lower().replace("_", "") for t in tnames}) != len(tnames):
+        raise EvalError("type names collide after camelCase")
     # no type name may be a prefix-extension clash that makes constants ambiguous: harmless, keep all
     kinds = [rng.choice(KINDS) for _ in tnames]
     spec.types = list(zip(tnames, kinds))
